@@ -589,3 +589,23 @@ def expr_stats(expr, acc=None):
     elif expr[0] == '~':
         expr_stats(expr[1], acc)
     return acc
+
+
+# --------------------------------------------------------------------------
+# cell parameters that have nothing to do with the geometry
+# --------------------------------------------------------------------------
+
+IGNORABLE_CELL_KW = ['tmp=2.53e-8', 'vol=10.0', 'nonu=1', 'nonu=2', 'nonu=0',
+                     'pwt=1', 'ext:n=0', 'fcl:n=0', 'elpt:n=1e-3', 'unc:n=1',
+                     'bflcl=0', 'vol=1', 'tmp=1e-7']
+
+
+@st.composite
+def ignorable_keywords(draw):
+    """(written before the other parameters, written last); mostly empty."""
+    if draw(st.integers(0, 5)) != 0:
+        return None
+    items = draw(st.lists(st.sampled_from(IGNORABLE_CELL_KW), min_size=1,
+                          max_size=2, unique_by=lambda t: t.split('=')[0]))
+    k = draw(st.integers(0, len(items)))
+    return [items[:k], items[k:]]
